@@ -72,6 +72,12 @@ def multi_scenarios(rnd, n, **flags):
                     {"tab": "OUT", "ts": y(2020, 6), "ex": "Coinbase", "ho": "Bob", "type": "sell", "spot": str(200 * p), "amount": "1.5", "fee": "0.01"},
                     {"tab": "OUT", "ts": y(2021, 6), "ex": "Coinbase", "ho": "Bob", "type": "sell", "spot": str(300 * p), "amount": "0.5", "fee": "0"}]
     out.append({"assets": {"B1": cf(1), "B2": cf(3)}})
+    # fees given in fiat only (acquisition and disposal), a donation and a gift
+    out.append({"assets": {"B1": [{"tab": "IN", "ts": y(2020, 1), "ex": "Kraken", "ho": "Alice", "type": "buy", "spot": "100", "amount": "3", "fiat_fee": "4"},
+                                  {"tab": "IN", "ts": y(2020, 2), "ex": "Kraken", "ho": "Alice", "type": "gift", "spot": "110", "amount": "1"},
+                                  {"tab": "OUT", "ts": y(2020, 5), "ex": "Kraken", "ho": "Alice", "type": "sell", "spot": "200", "amount": "1", "fee": "0", "fiat_fee": "3"},
+                                  {"tab": "OUT", "ts": y(2020, 7), "ex": "Kraken", "ho": "Alice", "type": "donate", "spot": "220", "amount": "0.5", "fee": "0"},
+                                  {"tab": "OUT", "ts": y(2021, 7), "ex": "Kraken", "ho": "Alice", "type": "gift", "spot": "300", "amount": "0.5", "fee": "0.01"}]}})
     for _ in range(n):
         k = rnd.choice([1, 2, 2, 3])
         sc = {"assets": {}}
